@@ -503,7 +503,7 @@ class CallGraph:
 
 def trewrite(t, f):
     """top-down rewrite of a term: f(t) -> replacement or None (then recurse into the children)"""
-    if not isinstance(t, tuple):
+    if not isinstance(t, tuple) or not t:
         return t
     r = f(t)
     if r is not None:
